@@ -60,6 +60,7 @@ type RollScn struct {
 	FaultDir []string   `json:"dir_faults,omitempty"` // C14: readdir | info | remove failures
 	Static   string     `json:"static,omitempty"`     // C19b: file-closed | file-unstarted | console-fails
 	ViaLogger bool      `json:"via_logger,omitempty"` // C14: the sibling pair is built by a RollingFileLogger (separate=true)
+	Name     string     `json:"file_name,omitempty"`  // C13: file name of the appender (default app.log)
 	Touch    bool       `json:"touch,omitempty"`      // C14: an outside party refreshes the modification time of old files during the run
 	ViaAppend bool      `json:"via_append,omitempty"` // C13: every other write is an event handed to Append, stamped by the application's clock (TimeNow hook), not the wall clock
 	Twin     bool       `json:"twin,omitempty"`       // C13: a second live appender object on the same directory and name (odd writers use it)
@@ -68,7 +69,15 @@ type RollScn struct {
 
 func (s *RollScn) knobs() SimKnobs { return s.Knobs }
 
-const rollDir, rollName = "/logs", "app.log"
+const rollDir = "/logs"
+
+// rollName is the file name of the rolling appender under test. C13 varies it per case (set at
+// the start of the case, read by the judge of the same case); everybody else uses app.log.
+var rollName = "app.log"
+
+// file names that contain what a time layout would take for a field (digits 1-6, 15, 2006,
+// zone and month abbreviations) are names like any other
+var rollNames = []string{"app.log", "app.log", "svc1.log", "worker15.log", "audit_2006.log", "MST-batch.log", "Jan_report.log", "x.2.3.4.5"}
 
 type rollWrite struct {
 	ID         string
@@ -271,6 +280,7 @@ func (c13) Gen(rt *rapid.T, thorough bool) any {
 	s.Restarts = rapid.SampledFrom([]int{0, 0, 0, 1, 2}).Draw(rt, "restarts")
 	s.Twin = len(s.Writers) > 1 && rapid.IntRange(0, 3).Draw(rt, "twin") == 0
 	s.ViaAppend = rapid.IntRange(0, 2).Draw(rt, "via_append") == 0
+	s.Name = rapid.SampledFrom(rollNames).Draw(rt, "file_name")
 	if rapid.IntRange(0, 7).Draw(rt, "huge") == 0 {
 		// one very long line somewhere: "whole" has no size limit
 		w := rapid.IntRange(0, len(s.Writers)-1).Draw(rt, "huge_w")
@@ -282,6 +292,11 @@ func (c13) Gen(rt *rapid.T, thorough bool) any {
 func (c13) Run(x *Exec, scn any) {
 	s := scn.(*RollScn)
 	o := x.Out
+	rollName = "app.log"
+	if s.Name != "" {
+		rollName = s.Name
+	}
+	defer func() { rollName = "app.log" }()
 	x.FS.MkdirAll(rollDir)
 	iv := intervals[s.Interval]
 	start := verifsim.Now()
@@ -938,6 +953,23 @@ func (c14) Gen(rt *rapid.T, thorough bool) any {
 	}
 	if rapid.IntRange(0, 4).Draw(rt, "dirfault") == 0 {
 		s.FaultDir = []string{rapid.SampledFrom([]string{"readdir", "info", "remove", "readdir-once", "readdir-once", "open-once", "open-once"}).Draw(rt, "dirfault_kind")}
+	}
+	if rapid.IntRange(0, 40).Draw(rt, "many_files") == 0 {
+		// a directory with hundreds of own files whose ages follow their names - except one old-named
+		// file that was modified a minute ago: every file is judged by its own modification time
+		s.Pop, s.MaxAge, s.Interval, s.FaultDir = nil, 72, rapid.SampledFrom([]string{"1s", "2s"}).Draw(rt, "many_interval"), nil
+		n := rapid.IntRange(520, 640).Draw(rt, "many_n")
+		odd := rapid.IntRange(20, n/4).Draw(rt, "many_odd")
+		for i := 0; i < n; i++ {
+			age := (n - i) * 10 // minutes
+			pf := PopFile{Name: "app.log." + time.Date(2023, 1, 1, 0, 0, 0, 0, time.UTC).Add(time.Duration(i)*10*time.Minute).Format("20060102150405"), AgeH: age / 60, AgeMin: age % 60, Size: 1}
+			if i == odd {
+				pf.AgeH, pf.AgeMin = 0, 1
+			}
+			s.Pop = append(s.Pop, pf)
+		}
+		s.Touch = false
+		return s
 	}
 	s.Touch = rapid.IntRange(0, 3).Draw(rt, "touch") == 0
 	if s.Touch && rapid.Bool().Draw(rt, "touch_preset") && len(s.Pop) > 0 {
